@@ -31,8 +31,24 @@ for c,targets in fixes.items():
     diff=subprocess.run(["git","-C","/repo","show","--format=",c],capture_output=True,text=True).stdout
     subj=subprocess.run(["git","-C","/repo","log","-1","--format=%s",c],capture_output=True,text=True).stdout.strip()
     open(f"{H}/findings/fixes/{c}.diff","w").write(diff)
+    # later fixes may have changed the lines around this one, so that its reversed diff no longer applies to
+    # HEAD: let git compute the revert on HEAD (three-way) in a scratch worktree; fall back to the reversed diff
+    patch,rev=f"findings/fixes/{c}.diff",True
+    W=f"/tmp/mkv-revert-{os.getpid()}"
+    subprocess.run(["git","-C","/repo","worktree","add","-q","--detach",W,"HEAD"],capture_output=True)
+    rr=subprocess.run(["git","-C",W,"revert","--no-commit",c],capture_output=True,text=True)
+    if rr.returncode==0:
+        d=subprocess.run(["git","-C",W,"diff","HEAD"],capture_output=True,text=True).stdout
+        if d.strip():
+            open(f"{H}/findings/fixes/{c}.revert-on-head.diff","w").write(d)
+            patch,rev=f"findings/fixes/{c}.revert-on-head.diff",False
+    subprocess.run(["git","-C","/repo","worktree","remove","--force",W],capture_output=True)
+    if rev and os.path.exists(f"{H}/findings/fixes/{c}.undo-on-head.diff"):
+        # git could not revert it on HEAD (conflict with a later fix): a handwritten undo of the same lines
+        patch,rev=f"findings/fixes/{c}.undo-on-head.diff",False
     for pid,rule in targets:
         os.makedirs(f"{H}/variants/{pid}",exist_ok=True)
-        v={"name":f"unfix-{c}","patch":f"findings/fixes/{c}.diff","reverse":True,"expect":rule,"why":f"the repaired defect returns ({subj})"}
+        v={"name":f"unfix-{c}","patch":patch,"expect":rule,"why":f"the repaired defect returns ({subj})"}
+        if rev: v["reverse"]=True
         json.dump(v,open(f"{H}/variants/{pid}/unfix-{c}.json","w"),indent=1); n+=1
 print(n,"variants")
